@@ -112,6 +112,7 @@ TEpisode ==
                   \o (IF changed THEN <<"schema-owned value was modified">> ELSE <<>>)
                   \o (IF ~same2 THEN <<"second identical execution differs">> ELSE <<>>)
                   \o (IF ~inputok THEN <<"input data was modified">> ELSE <<>>)
+                  \o (IF t.valuechanged THEN <<"Validate changed the value otherwise than through Default, Catch or PostTransform">> ELSE <<>>)
      IN TLCSet(1, TLCGet(1) \o (IF problems # <<>>
           THEN <<[prop |-> "C19", kind |-> problems[1], id |-> t.id, line |-> l, detail |-> [site |-> t.site, mode |-> t.mode, problems |-> problems, note |-> t.note]]>> ELSE <<>>))
   /\ l' = l + 1
